@@ -230,6 +230,7 @@ func layoutOf(t types.Type) *Layout {
 		for _, lf := range vs.Leaves {
 			lf.Path = "[k]" + lf.Path
 			lf.S = ArrS(ks.Leaves[0].S, lf.S)
+			lf.Lift++
 			l.Leaves = append(l.Leaves, lf)
 		}
 	case *SpecInt:
